@@ -265,6 +265,20 @@ def oracle_plss(c):
         d12.parse(layout=value)
         if snap_plss(d12)["tracts"] != s1["tracts"]:
             fails.append(Failure("plss_parse_layout_keyword_does_not_win", f"config {other} + parse(layout={value!r}) on {text!r} gives {snap_plss(d12)['tracts']}, expected {s1['tracts']}", **ctx))
+    if s == "segment":
+        # a layout keyword that overrides a configured copy_all overrides what copy_all implies as well (copy_all is never segmented)
+        ref13 = snap_plss(PLSSDesc(text, config=join(pq, "TRS_desc,segment")))
+        d13 = PLSSDesc(text, config=join(pq, "copy_all,segment"), wait_to_parse=True)
+        d13.parse(layout="TRS_desc")
+        d14 = PLSSDesc(text, layout="TRS_desc", config=join(pq, "copy_all,segment"))
+        d15 = PLSSDesc(text, config=join(pq, "copy_all,segment"))
+        d15.config = "TRS_desc"
+        d15.parse()
+        for how, dd in (("config copy_all,segment + parse(layout='TRS_desc')", d13), ("PLSSDesc(layout='TRS_desc', config='copy_all,segment')", d14),
+                        ("config copy_all,segment, then .config = 'TRS_desc', parse()", d15)):
+            if snap_plss(dd)["tracts"] != ref13["tracts"]:
+                fails.append(Failure("layout_over_copy_all_with_segment", f"{how} on {text!r} gives {snap_plss(dd)['tracts']}, config 'TRS_desc,segment' gives {ref13['tracts']}", **ctx))
+                break
     # conflicts
     if c["conflict"] == "kw_over_config" and s in PLSS_KW and isinstance(value, bool):
         d7 = PLSSDesc(text, config=join(pq, f"{s}.False"), wait_to_parse=True)
